@@ -74,6 +74,7 @@ class Case:
         self.env = env or {}
         self.meta = meta or {}
         self.timeout = timeout
+        self.files = {}         # relative path -> bytes, written into the case directory before the run
 
     def script_text(self):
         return "\n".join(self.lines) + "\n"
@@ -126,6 +127,9 @@ def run_case(case, bld, workdir, keep=False, extra_env=None):
     for d in (case.env.get("VERIF_MKDIR") or "").split(","):
         if d:
             os.makedirs(os.path.join(outdir, d), exist_ok=True)
+    for rel, content in (getattr(case, "files", None) or {}).items():
+        with open(os.path.join(outdir, rel), "wb") as f:
+            f.write(content)
     spath = os.path.join(outdir, "script")
     with open(spath, "w") as f:
         f.write(case.script_text().replace("@OUT@", outdir))
